@@ -47,10 +47,20 @@ type tcase struct {
 	Occ     []occ  `json:"occ"`
 }
 
-// Spell writes the program as JavaScript.
-func Spell(prog []item) string {
+// blockSpellings: statements whose braces form a plain block scope (ECMA-262: Block, CaseBlock, the blocks of if / try /
+// finally / do-while / while, a catch clause without a parameter). ScopeSem.tla's "blk" stands for all of them; which one is
+// written is chosen per program and block (SpellV), so that every spelling occurs throughout the enumerated programs.
+var blockSpellings = [][2]string{{"{", "}"}, {"switch(0){case 0:", "}"}, {"if(0){", "}"}, {"try{", "}finally{}"}, {"do{", "}while(0);"},
+	{"switch(0){default:", "}"}, {"if(0);else{", "}"}, {"try{}finally{", "}"}, {"while(0){", "}"}, {"try{}catch{", "}"}, {"{", "}"}}
+
+// Spell writes the program as JavaScript (every block as a plain block).
+func Spell(prog []item) string { return SpellV(prog, -1) }
+
+// SpellV writes the program as JavaScript; v >= 0 selects the spelling of block k as blockSpellings[(v+k) % n].
+func SpellV(prog []item, v int) string {
 	var b strings.Builder
 	var closers []string
+	nblk := 0
 	for _, it := range prog {
 		switch it.K {
 		case "decl":
@@ -88,8 +98,13 @@ func Spell(prog []item) string {
 				b.WriteString("((" + pl + ")=>{")
 				closers = append(closers, "});")
 			case "blk":
-				b.WriteString("{")
-				closers = append(closers, "}")
+				sp := blockSpellings[0]
+				if v >= 0 {
+					sp = blockSpellings[(v+nblk)%len(blockSpellings)]
+				}
+				nblk++
+				b.WriteString(sp[0])
+				closers = append(closers, sp[1])
 			case "forlet":
 				b.WriteString("for(let " + it.N + ";" + it.C + ";){")
 				closers = append(closers, "}")
@@ -471,7 +486,7 @@ func Replay(args []string) {
 			fmt.Fprintln(os.Stderr, "bad case", err)
 			os.Exit(2)
 		}
-		src := Spell(c.Prog)
+		src := SpellV(c.Prog, line)
 		if seen[src] {
 			return
 		}
